@@ -159,8 +159,40 @@ def run_history(res, c, scratch, rng):
         ))
         return False
 
+    def prelude():
+        """Buffered rows that are removed again before anything reached the file (flush_on_insert=False)."""
+        ops = []
+        n = rng.choice([1, 1, 2])
+        for _ in range(n):
+            ops.append({"op": "insert", "p": gen_nasty_spec(rng, c, res)})
+        ops.append(rng.choice([{"op": "remove_all"}, {"op": "remove", "q": ("noop", "measurement")},
+                               {"op": "update_all", "args": {"tags": {"static": {"zz": "1"}}}}]))
+        if rng.random() < 0.5:
+            ops.append({"op": "insert", "p": gen_nasty_spec(rng, c, res)})
+        for op in ops:
+            s.do(op)
+            twin.do(op)
+        res.count("buffered_then_removed_preludes")
+        tpost = twin.contents()
+        s.model.points = [MPoint(x[0], x[1], dict(x[2]), dict(x[3])) for x in tpost]
+        twin.model.points = [q_.copy() for q_ in s.model.points]
+        s.db.close()
+        ok = compare({"op": "close", "after": "buffered inserts removed again"})
+        s.db = s._open() if cfg.get("access_mode") != "w+" else s.db
+        return ok
+
+    companion = None
+    if rng.random() < 0.3:
+        # a second database with different csv options, open and used at the same time (no process-global state)
+        other = [d for d in DIALECTS if d != c["csv"]]
+        ccfg = default_config("csv", rng.random() < 0.5, flush=True, encoding=rng.choice([None, "utf-8"]), csv=rng.choice(other))
+        companion = (Session(ccfg, scratch), Session(default_config("mem", ccfg["auto_index"]), scratch), ccfg)
+        res.count("histories_with_a_companion_database")
     try:
         with quiet_stdout():
+            if not c["flush"] and cfg.get("access_mode") != "w+" and rng.random() < 0.4:
+                if not prelude():
+                    return
             for step in range(rng.randint(6, 16)):
                 op = gen_write_op(rng, s.model, prof)
                 if op["op"] == "insert":
@@ -207,6 +239,29 @@ def run_history(res, c, scratch, rng):
                     if not compare(dict(op, then="checked before any further call")):
                         return
                 res.seen((label, tuple(p.canon() for p in s.model.points)))
+                if companion is not None:
+                    cs, ct, ccfg = companion
+                    cop = {"op": "insert", "p": gen_nasty_spec(rng, {"csv": ccfg["csv"], "encoding": ccfg["encoding"]}, res)}
+                    if cs.model.points and rng.random() < 0.3:
+                        cop = {"op": "update_all", "args": {"tags": {"static": {"comp": str(step)}}}}
+                    cs.do(cop)
+                    ct.do(cop)
+                    cdata = cs.file_bytes()
+                    try:
+                        cind = [p.canon() for p in csvcodec.decode_bytes(cdata, ccfg["encoding"], ccfg["csv"])]
+                    except csvcodec.DecodeError as e:
+                        cind = f"independent reader: {e}"
+                    cwant = ct.contents()
+                    res.count("companion_file_comparisons")
+                    if cind != cwant:
+                        res.violate(Violation(
+                            "C04", "file-does-not-hold-current-contents",
+                            {"config": "companion database " + cfg_label({"flush": True, "encoding": ccfg["encoding"], "csv": ccfg["csv"]}) + " used alongside " + label,
+                             "after": cop, "reader": "independent reader", "decoded": repr(cind)[:400], "expected": repr(cwant)[:400]},
+                            replay={"cfg": cfg, "companion_cfg": ccfg, "ops": list(s.log), "companion_ops": list(cs.log)},
+                            features={"flush": True, "encoding": ccfg["encoding"], "op": cop["op"], "dialect": repr(ccfg["csv"]), "companion": True},
+                        ))
+                        return
                 # a read that stops early leaves the file position somewhere in the middle
                 if rng.random() < 0.5 and s.model.points:
                     q = targeted_query(rng, s.model, {})
@@ -240,6 +295,9 @@ def run_history(res, c, scratch, rng):
     finally:
         s.discard()
         twin.discard()
+        if companion is not None:
+            companion[0].discard()
+            companion[1].discard()
 
 
 def run(res, tier, seed, shard, nshards):
@@ -263,6 +321,7 @@ def run(res, tier, seed, shard, nshards):
     res.require("early_terminating_reads")
     res.require("compact_prefix_inserts")
     res.require("histories_access_mode_w+")
+    res.require("companion_file_comparisons")
     res.assumptions += [
         "text is drawn from the encoding's repertoire and a row is only used under a dialect the csv module itself round-trips (counted discards)",
         "newline='' (the quantifier does not range over it; the csv docs require it)",
